@@ -201,7 +201,7 @@ func runCheck(o *checkOpts) int {
 	if !o.keep {
 		defer os.RemoveAll(tmp)
 	}
-	cfg := WorkerCfg{VerifDir: o.verif, Repo: o.repo, PkgDirs: pkgDirs, Tier: tierN, Known: known.ids, KnownSites: known.sites, SolverPar: 6}
+	cfg := WorkerCfg{VerifDir: o.verif, Repo: o.repo, PkgDirs: pkgDirs, Tier: tierN, Known: known.ids, KnownSites: known.sites, SolverPar: 6, ExecBudgetS: int(o.jobTmo.Seconds()) / 5}
 	if v := os.Getenv("GOSYM_SOLVER_PAR"); v != "" {
 		cfg.SolverPar, _ = strconv.Atoi(v)
 	}
@@ -418,6 +418,10 @@ func report(o *checkOpts, tierN int, known *knownFile, results []JobResult, hs [
 			exit = 2
 			continue
 		}
+		if r.Incomplete != "" {
+			problems = append(problems, fmt.Sprintf("INCOMPLETE %s %v: %s", r.Harness, r.Choices, r.Incomplete))
+			exit = 2
+		}
 		totals.Instrs += r.Stats.Instrs
 		totals.States += r.Stats.States
 		totals.Forks += r.Stats.Forks
@@ -456,6 +460,8 @@ func report(o *checkOpts, tierN int, known *knownFile, results []JobResult, hs [
 				if ob.Status == "sat" {
 					reached = true
 					cands = append(cands, &candidate{job: r, obl: ob, class: "witness"})
+				} else if r.Incomplete != "" {
+					// not reached within the budget: says nothing
 				} else if ob.Status == "unsat" {
 					problems = append(problems, fmt.Sprintf("VACUOUS %s %v: reach tag %q is unreachable", r.Harness, r.Choices, ob.Msg))
 					exit = 2
@@ -466,6 +472,9 @@ func report(o *checkOpts, tierN int, known *knownFile, results []JobResult, hs [
 			case "vacuity":
 				// an assertion site must be reachable in at least one job (shape) of its harness
 				k := r.Harness + "|" + ob.Site + "|" + ob.Msg
+				if r.Incomplete != "" && ob.Status != "sat" {
+					continue
+				}
 				if ob.Status == "sat" {
 					siteLive[k] = true
 				} else if _, seen := siteDead[k]; !seen {
@@ -501,7 +510,7 @@ func report(o *checkOpts, tierN int, known *knownFile, results []JobResult, hs [
 				}
 			}
 		}
-		if !reached && r.Error == "" {
+		if !reached && r.Error == "" && r.Incomplete == "" {
 			hasReach := false
 			for _, ob := range r.Obls {
 				if ob.Kind == "reach" {
